@@ -14,7 +14,7 @@ TRUSTED = []
 def run(ctx, intensify=False):
     res = PropResult()
     outs = ctx.pmap(so.shard, [(ctx.seed * 1000 + i, ctx.n(8, 60) * (2 if intensify else 1), [PROP]) for i in range(ctx.nproc)])
-    cases = ok = toggles = sweeps = second = 0
+    cases = ok = toggles = sweeps = second = forms = form_err = 0
     raised, dates, hashes = {}, {}, set()
     for o in outs:
         res.violations += o["violations"]
@@ -23,6 +23,8 @@ def run(ctx, intensify=False):
         toggles += o["toggles"]
         sweeps += o.get("end_sweeps", 0)
         second += o.get("second_sims", 0)
+        forms += o.get("form_whatifs", 0)
+        form_err += o.get("form_errors", 0)
         hashes |= set(o["hashes"])
         res.samples += o["samples"]
         for k, v in o["sims_raised"].items():
@@ -31,7 +33,8 @@ def run(ctx, intensify=False):
             dates[k] = dates.get(k, 0) + v
     res.suites.append({"name": "K-sim", "cases": cases, "observations": cases + toggles, "disagreements": [], "inconclusive": 0,
                        "distribution": {"dates": dates, "raised": raised, "succeeded": ok, "toggles": toggles,
-                                        "end_of_pattern_date_sweeps": sweeps, "second_what_ifs": second}})
+                                        "end_of_pattern_date_sweeps": sweeps, "second_what_ifs": second,
+                                        "form_what_ifs": forms, "form_what_ifs_not_evaluated": form_err}})
     res.evaluations = cases
     res.distinct_nontrivial = max(len(hashes), 2)
     res.rule = ("random systems × random change lists (numeric inputs, hourly inputs, links, lists, mixtures) × simulation dates "
